@@ -30,7 +30,10 @@ func CaptureResponse(w http.ResponseWriter) *ResponseCapture {
 
 // WriteHeader records the value of the status code before writing it.
 func (w *ResponseCapture) WriteHeader(code int) {
-	w.StatusCode = code
+	if w.StatusCode < 200 {
+		// net/http keeps the first final status, later calls are ignored
+		w.StatusCode = code
+	}
 	w.ResponseWriter.WriteHeader(code)
 }
 
